@@ -641,6 +641,12 @@ class Model:
         if isinstance(e.func, ast.Name) and e.func.id == "bool" and len(e.args) == 1 and not e.keywords and isinstance(e.args[0], ast.BoolOp) \
                 and "bool" not in st.env:
             return V(ex.ev_truth(e.args[0], st), BOOL)       # bool(a and b ...): truth value of an and/or chain of mixed types
+        if ast.unparse(e.func) in ("collections.defaultdict", "defaultdict") and len(e.args) == 1 and not e.keywords \
+                and isinstance(e.args[0], ast.Name) and e.args[0].id in ("set", "list"):
+            return pyv(("emptydict", e.args[0].id))        # typed by the contract's `locals` entry at the assignment; default factory remembered there
+        r = self.defaultdict_update(ex, e, st)
+        if r is not None:
+            return r
         # method call syntax first, so that receivers are evaluated once
         if isinstance(e.func, ast.Attribute):
             recv = ex.ev(e.func.value, st)
@@ -937,7 +943,53 @@ class Model:
         if name == "add" and len(args) == 1 and isinstance(node.func.value, ast.Name):
             st.env[node.func.value.id] = self.set_add(ex, s, ex.coerce(args[0], s.ty.elem), st)
             return const(None)
+        if name == "update" and len(args) == 1 and isinstance(node.func.value, ast.Name):
+            other = args[0]
+            if other.ty is PY and isinstance(other.py, tuple) and other.py and other.py[0] == "genexp":
+                _, gn, env = other.py
+                s2 = st.fork()
+                s2.env = dict(env)
+                n0 = len(s2.pc)
+                other = self.set_comprehension(ex, ast.SetComp(elt=gn.elt, generators=gn.generators), s2)
+                if other is None:
+                    raise Unsupported("set.update(<generator expression outside the modelled forms>)")
+                for f in s2.pc[n0:]:
+                    st.assume(f)
+                st.facts |= s2.facts
+            elif not isinstance(other.ty, SetT):
+                other = _b_set(self, ex, [other], {}, st, node)
+            if not isinstance(other.ty, SetT):
+                raise Unsupported(f"set.update({other!r})")
+            ety = s.ty.elem
+            n = V(fresh("set", Ref), s.ty)
+            y = z3.Const("sy", ety.sort())
+            st.assume(n.term != NONE)
+            st.assume(z3.ForAll([y], set_mem(n.term, y, ety) == z3.Or(set_mem(s.term, y, ety), set_mem(other.term, y, ety))))
+            st.env[node.func.value.id] = n
+            return const(None)
         raise Unsupported(f"set.{name}")
+
+    def defaultdict_update(self, ex, e, st):
+        """`d[k].add(v)` on a local created as collections.defaultdict(set): d := d[k -> (d[k] if k in d else {}) + {v}]."""
+        f = e.func
+        if not (isinstance(f, ast.Attribute) and f.attr == "add" and isinstance(f.value, ast.Subscript) and isinstance(f.value.value, ast.Name)
+                and len(e.args) == 1 and not e.keywords):
+            return None
+        name = f.value.value.id
+        if getattr(ex, "defaultdicts", {}).get(name) != "set" or name not in st.env:
+            return None
+        m = st.env[name]
+        if not (isinstance(m.ty, MapT) and isinstance(m.ty.val, SetT)):
+            return None
+        k = ex.coerce(ex.ev(f.value.slice, st), m.ty.key)
+        v = ex.coerce(ex.ev(e.args[0], st), m.ty.val.elem)
+        ety = m.ty.val.elem
+        cur = V(fresh("dd.cur", Ref), m.ty.val)
+        y = z3.Const("sy", ety.sort())
+        st.assume(cur.term != NONE)
+        st.assume(z3.ForAll([y], set_mem(cur.term, y, ety) == z3.And(map_has(m.term, k.term, m.ty.key), set_mem(map_get(m.term, k.term, m.ty.key, m.ty.val), y, ety))))
+        st.env[name] = self.map_store(ex, m, k, self.set_add(ex, cur, v, st), st)
+        return const(None)
 
     # ------------------------------------------------------------------ functional container updates
     def seq_append(self, ex, s, x, st):
@@ -1064,7 +1116,7 @@ class Model:
         mark = len(FRESH_LOG)
         s2 = st.fork()
         n0 = len(s2.pc)
-        js, guards = [], []
+        js, guards, marks = [], [], []          # marks: (length of the path condition, number of guards) after each guard was added
         saved = len(ex.guards)
         try:
             for g in e.generators:
@@ -1081,6 +1133,7 @@ class Model:
                 js.append(j)
                 rng = z3.And(0 <= j, j < n)
                 guards.append(rng)
+                marks.append((len(s2.pc), len(guards)))
                 ex.guards.append(rng)
                 item = at(j)
                 ex.assign(g.target, item, s2)
@@ -1089,6 +1142,7 @@ class Model:
                 for c in g.ifs:
                     t = ex.ev_truth(c, s2)
                     guards.append(t)
+                    marks.append((len(s2.pc), len(guards)))
                     ex.guards.append(t)
             val = ex.ev(e.elt, s2)
         finally:
@@ -1096,11 +1150,17 @@ class Model:
         if val.ty is TUPLE or val.ty is PY:
             return None
         ety = val.ty
-        lifted = lift_fresh(mark, js, list(s2.pc[n0:]) + [z3.And(guards), val.term])
-        facts, guard, vterm = lifted[:-2], lifted[-2], lifted[-1]
+        raw = list(s2.pc[n0:])
+        lifted = lift_fresh(mark, js, raw + guards + [val.term])
+        facts, lguards, vterm = lifted[:len(raw)], lifted[len(raw):-1], lifted[-1]
+        guard = z3.And(lguards)
         st.facts |= s2.facts
-        for f in facts:
-            st.assume(z3.ForAll(js, z3.Implies(guard, f)) if any(_mentions(f, j) for j in js) else f)
+        for idx, f in enumerate(facts):
+            # a fact recorded while evaluating the i-th iterable / condition (a definition: call result, cardinality ...) holds under the
+            # guards that were in force at that point - not only for the elements that also pass the later filters
+            active = max([ng for (pci, ng) in marks if pci <= n0 + idx] or [0])
+            pre = z3.And(lguards[:active]) if active else z3.BoolVal(True)
+            st.assume(z3.ForAll(js, z3.Implies(pre, f)) if any(_mentions(f, j) for j in js) else f)
         res = V(fresh("setcomp", Ref), SetT(ety))
         x = z3.Const("sx", ety.sort())
         st.assume(res.term != NONE)
@@ -1254,6 +1314,9 @@ class Model:
             if name in st.env:
                 v = st.env[name]
                 if v.ty is PY or v.ty is TUPLE:
+                    if ex.lenient:
+                        st.env[name] = V(fresh("havoc", Ref), ObjT("Opaque"))      # safety-only mode: the value is forgotten
+                        continue
                     raise Unsupported(f"loop at line {node.lineno} modifies python-side value {name}")
                 nv = V(fresh("hv." + name, v.ty.sort()), v.ty)
                 st.env[name] = nv
@@ -1368,6 +1431,16 @@ def _b_len(model, ex, args, kwargs, st, node):
     if isinstance(v.ty, MapT):
         model.map_facts(ex, v, st)
         return V(seq_len(map_keys(v.term)), INT)
+    if isinstance(v.ty, SetT):
+        # cardinality as far as comparisons with 0, 1 and 2 need it: >= 1 iff a member exists, >= 2 iff two members that are not equal exist
+        ety = v.ty.elem
+        card = fn("set.card", Ref, z3.IntSort())(v.term)
+        a, b = z3.Const("ca", ety.sort()), z3.Const("cb", ety.sort())
+        neq = z3.Not(ex.equal(V(a, ety), V(b, ety)))
+        st.assume(card >= 0)
+        st.assume((card >= 1) == z3.Exists([a], set_mem(v.term, a, ety)))
+        st.assume((card >= 2) == z3.Exists([a, b], z3.And(set_mem(v.term, a, ety), set_mem(v.term, b, ety), neq)))
+        return V(card, INT)
     if v.ty is PY and isinstance(v.py, (tuple, list, frozenset, set, dict, str)) and not (v.py and isinstance(v.py, tuple) and isinstance(v.py[0], str) and v.py[0] in ("items", "genexp")):
         return const(len(v.py))
     raise Unsupported(f"len of {v!r}")
